@@ -436,6 +436,10 @@ func checkC06(p *Prog, r *Report) {
 		ok, how := p.pairIsListed(f, arg, 0)
 		r.Check(ok, "selected pair is listed: "+f.Name, p.Pos(e.Site.Pos()), how, "the pair selected in "+f.Name+" does not provably come from the checklist ("+how+")")
 	}
+
+	// ---- R6.7 exhaustive clean-up / migration loops ----
+	r.Rule("R6.7", "The loops that must treat every element of a collection do so: no early exit, and no path through an iteration that skips the operation (every local candidate's source cache follows a superseded remote).", 1)
+	checkForAllLoops(p, r, "C06")
 }
 
 // pairIsListed: e derives from findPair/addPair, a checklist element, the
